@@ -35,6 +35,14 @@ def execute(mod, prop, tier, batch_seed, index, record=None, trace=False, seed=N
 
     if seed is None:
         seed = run_seed(batch_seed, prop, index)
+    import gc
+
+    # the cyclic collector runs only here, between runs: a collection inside a
+    # run could finalise objects (generators, estimators) inside a traced
+    # thread and perturb the schedule
+    gc.enable()
+    gc.collect()
+    gc.disable()
     c = C.Ctx(seed, record)
     c.index = index
     c.tier = tier
@@ -74,7 +82,7 @@ def execute(mod, prop, tier, batch_seed, index, record=None, trace=False, seed=N
         res["record"] = c.ch.record()
     if trace or c.violations:
         res["scenario"] = c.scenario
-        res["trace"] = [list(map(_j, e)) for e in c.log.events[: (4000 if trace else 400)]]
+        res["trace"] = [list(map(_j, e)) for e in c.log.events[: (max(4000, c.log.keep) if trace else 400)]]
     elif getattr(c, "want_sample", False):
         res["scenario"] = c.scenario
     return res
